@@ -225,6 +225,7 @@ func c12RunHist(c C12Case, m proto.Message, ty c12Type, bi *c12BuildInfo) (final
 	sizeBefore, sizeAfter := -1, -1
 	nset := 0
 	seen := map[string]bool{}
+	seenScribble := false
 	for i, st := range c.Hist {
 		step = fmt.Sprintf("%d (%s)", i, st.Op)
 		if !seen[st.Op] {
@@ -296,6 +297,46 @@ func c12RunHist(c C12Case, m proto.Message, ty c12Type, bi *c12BuildInfo) (final
 				}
 				if st.Op == c12OpPU && !proto.Equal(m, src) {
 					return nil, nil, nil, fail("%s: history step %s: decoding into the (reset) object did not give the encoded value: got {%s} want {%s}", name, step, c12Text(m), c12Text(src))
+				}
+			}
+			// decoded objects are independent: a second message decoded from the same bytes by
+			// the same decoder shares no sub-message object with the object of this history; the
+			// object is then scribbled over in place (its value is no longer named: a "set" step
+			// follows) and neither the second message nor a third decode may be affected
+			if st.Op != c12OpVU || hasVT {
+				decodeFresh := func() (proto.Message, error) {
+					x := ty.mt.New().Interface()
+					cp := append([]byte(nil), b...)
+					if st.Op == c12OpVU {
+						return x, x.(c12VT).UnmarshalVT(cp)
+					}
+					return x, proto.Unmarshal(cp, x)
+				}
+				second, err := decodeFresh()
+				if err != nil {
+					return nil, nil, nil, fail("%s: history step %s: decoding the same bytes into a new message failed: %v", name, step, err)
+				}
+				seen := map[uintptr]struct{}{}
+				if c12HasSharedPointers(m.ProtoReflect(), seen) || c12HasSharedPointers(second.ProtoReflect(), seen) {
+					d := map[uintptr]string{}
+					desc := c12CollectPointers(m.ProtoReflect(), "object of the history", d)
+					if desc == "" {
+						desc = c12CollectPointers(second.ProtoReflect(), "second decode", d)
+					}
+					return nil, nil, nil, fail("%s: history step %s: decoded messages share a sub-message object (modifying one changes the other): %s", name, step, desc)
+				}
+				c12Scribble(m.ProtoReflect(), 2)
+				known = false
+				if !proto.Equal(second, src) {
+					return nil, nil, nil, fail("%s: history step %s: a message decoded from the same bytes changed when the object of the history was modified in place: now {%s} want {%s}", name, step, c12Text(second), c12Text(src))
+				}
+				third, err := decodeFresh()
+				if err != nil || !proto.Equal(third, src) {
+					return nil, nil, nil, fail("%s: history step %s: decoding the same bytes again after the object was modified in place gives a different message: got {%s} want {%s} (err %v)", name, step, c12Text(third), c12Text(src), err)
+				}
+				if !seenScribble {
+					seenScribble = true
+					classes = append(classes, "hist:decoded_then_scribbled")
 				}
 			}
 		case c12OpSet:
